@@ -761,6 +761,26 @@ def search_reuse(ctx, fd, rebound):
         apply("Vec3d*scalar", lambda: v * 2.5, [v], tuple(x * 2.5 for x in v0), 0.0, rep)
         apply("Vec3d/scalar", lambda: v / 4.0, [v], tuple(x / 4.0 for x in v0), 0.0, rep)
         apply("Vec3d(Vec3d)", lambda: V(v), [v], v0, 0.0, rep)
+        # in-place methods on a copy: the original and the rotation are untouched, the copy is returned (self) with the rotated / unit vector
+        for nm, fn, exp, tl in (("Vec3d.rotate", lambda c: c.rotate(q1), exrot(q1t, v0), tol), ("Vec3d.normalize", lambda c: c.normalize(), tuple(unit(list(v0))), 8 * EPS)):
+            ctx.evaluations += 1
+            cpy = V(v); b4 = [snap(v), snap(q1)]
+            try:
+                r = fn(cpy)
+            except Exception as e:
+                fd.fail("vec3d:methods-broken", dict(rep, method=nm, error=repr(e)), "%s raises %r" % (nm, e)); continue
+            if [snap(v), snap(q1)] != b4:
+                fd.fail("reuse:operand-modified:" + nm, dict(rep, method=nm), "%s on a copy changed the original vector or the rotation" % nm)
+            elif r is not cpy or not close(vt(cpy), exp, tl):
+                fd.fail("reuse:value:" + nm, dict(rep, method=nm, got=vt(cpy), expected=exp, returns_self=r is cpy), "%s does not leave the documented vector in place / return self" % nm)
+        # rotate twice on the same object = rotation by q1*q1; rotate then inverse-rotate = identity
+        cpy = V(v)
+        try:
+            cpy.rotate(q1); cpy.rotate(q1.inverse())
+            if not close(vt(cpy), v0, tol * 4):
+                fd.fail("reuse:value:Vec3d.rotate", dict(rep, got=vt(cpy), expected=v0), "v.rotate(q); v.rotate(q.inverse()) does not restore v")
+        except Exception as e:
+            fd.fail("vec3d:methods-broken", dict(rep, method="Vec3d.rotate", error=repr(e)), "Vec3d.rotate raises %r" % (e,))
         # Particle / Simulation
         if k % 4 == 0:
             sim = rebound.Simulation()
